@@ -15,6 +15,38 @@ claimed = {
    note=TRUST+"encoding/json is trusted (only struct tags are checked); decoders are proved only for their safety case (C08) so far; "
         "preconditions of the encoders (scratch buffer does not alias the fields) are checked at their in-repo call sites only where those are under contract.",
    design="5/C07", technique="contract-based deductive verification: generated WP obligations over go/ssa, discharged by z3"),
+
+ "C13": dict(
+   text="Deductive proof of the pool-size lock invariant of Transport.connsMu (for every address: active <= MaxConnsPerHost and idle <= MaxConnsPerHost - active; idle queue "
+        "length <= capacity <= MaxIdleConnsPerHost; list and queue entries belong to their key) at every Unlock of getConn (all nine return paths, including the once.Do "
+        "normalisation of the limits) for all interleavings (monitor rule: guarded state is havocked at Lock and only the invariant is assumed), all limits and all addresses.",
+   note=TRUST+"run, CloseIdleConnections and Close (loops over both maps) are not under contract yet, so the invariant is proved for getConn/newPersistConn/conns.Cursor only; "
+        "connQueue is an abstract data type with assumed (trusted) contracts; counts pool membership, not kernel sockets; exported limit fields are assumed not to be written after first use.",
+   design="5/C13", technique="contract-based deductive verification: lock invariant (Owicki-Gries monitor rule) as generated obligations at every Unlock, z3"),
+ "C14": dict(
+   text="Deductive proof that getConn returns only a connection whose ghost dial address equals the requested address and which was observed alive under its mutex during the call "
+        "(or freshly dialed), that newPersistConn reports ErrDial on every dial failure, and that each Transport call form issues at most one call, on exactly the connection "
+        "returned for that address, and marks and closes it when the call reports ErrShutdown. The genuine defect found by the aliveSeen postcondition (second idle path) is repaired by a fix: commit.",
+   note=TRUST+"Conn.Call/Go/... are assumed contracts here (ghost call counter); Transport.Go/RoundTrip wrappers not yet under contract; the history claim 'at most one failure per pooled connection' is not decided.",
+   design="5/C14", technique="contract-based deductive verification with ghost address/observation state, z3"),
+ "C16": dict(
+   text="Deductive proof of the Client lock invariant (every element of the live list and of the heap array is a value of the current target map under its own address; map keys are "
+        "non-empty) at every Unlock of Update, check, wait, Close, director and detect, that schedule returns only live targets, and that each of the six call forms passes exactly the "
+        "routed address (Director result or scheduled target) to the transport, at most once.",
+   note=TRUST+"Director hook and RoundTripper are interface/dynamic contracts (assumed); target.alive is racy by design and read as is; NewClient and run are not under contract.",
+   design="5/C16", technique="contract-based deductive verification: lock invariant + ghost routing record, z3"),
+ "C17": dict(
+   text="Deductive proof of schedule's postconditions (round-robin: element at the cursor and cursor+1 modulo n; random: a live target, cursor unchanged; single target short-cut), "
+        "of target.Update's EWMA over the reals (dial error -> maximum, first sample -> sample, otherwise trunc(old*alpha + new*(1-alpha))) and of heapDown/minHeap preserving the "
+        "element multiset marking (heapify only permutes, bounds and nil-safety).",
+   note=TRUST+"float64 is treated as real arithmetic; heap-order minimality of the root (LeastTime non-probe pick) is NOT proved deductively yet (bounded stand-in planned); latencies are assumed quiescent during one activation.",
+   design="5/C17", technique="contract-based deductive verification, z3 (nonlinear real arithmetic for the EWMA)"),
+ "C18": dict(
+   text="Deductive proof of the safety core: closed => no registered waiter (lock invariant at every Unlock of wait, Close, check, director, detect), Close and checkPending drain the "
+        "waiter table completely (loop invariants over the ghost enumeration of the map), every registered key is below the sequence counter, close(done) happens at most once (typestate guarded by the CAS), "
+        "Alive marks a target dead only on ErrDial, and Call/CallWithContext issue no transport call when routing fails.",
+   note=TRUST+"Every clause with a duration (detection time, DialTimeout) is liveness/timing and not decided; waiter release tokens are not tracked yet; the waiter sequence counter is assumed not to wrap.",
+   design="5/C18", technique="contract-based deductive verification: lock invariant, loop invariants over map iteration, z3"),
  "C08": dict(
    text="Deductive proof of panic-freedom: every index, slice, nil-dereference, type-assertion and callee-precondition obligation generated from the "
         "header decoders and upgrade.Unmarshal is discharged for all byte strings (precondition true), and accepted fields are proved to lie inside the frame; "
